@@ -192,13 +192,13 @@ func checkSaturatingTotals(p *Prog, r *Result, fns ...*FuncNode) {
 func checkC07(p *Prog, r *Result, tier string) {
 	r.Technique = "sibling-agreement rules between the capacity path and the allocation path of the cpumem plugin (normalised source expressions of the planner call, the memory quotient, the CPU precheck and the branch condition), saturating-accumulation idiom rule on both totals, go/cfg dominance for the zero-capacity filter"
 	r.Explanation = "N3 both totals (plugin and manager) saturate: the choice between `total = MaxInt` and `total += capacity` tests the running total AND the addend; " +
-		"AG1 capacity and allocation obtain CPU plans from schedule.GetCPUPlans with argument-wise identical sources (node info, no affinity map, configured share base and max share, the request); the reported capacity is len(plans) and the allocation refuses exactly when len(plans) < count; " +
+		"AG1 capacity and allocation obtain CPU plans from schedule.GetCPUPlans with argument-wise identical sources (node info, no affinity map, configured share base and max share, the request); the reported capacity is len(plans) and the allocation refuses exactly when len(plans) < count, and neither CPU-bound side has a return that bypasses the planner call; " +
 		"AG2 the memory branch of capacity and doAllocByMemory use the same two operands (available memory of the node info / requested memory) with the same zero-means-unlimited guard and the same CPU-count precheck; AG3 both sides choose between the memory and the CPU branch on the same condition (req.CPUBind); " +
 		"DOM a node enters the offered map only under Capacity > 0, and the total is accumulated under the same guard; MG the manager's merge of the plugins' answers (rules shared with C09: a node is kept only if every plugin offers it, its capacity is the minimum, the first-answer path is taken only for a nil accumulator, the fold passes (accumulator, answer)) — otherwise a node or a capacity is reported that some plugin's allocation refuses."
 	r.NotCovered = "the numeric identity itself (that the largest accepted count equals the quotient / plan count for every state); 'allocating k lowers capacity by k' over a history; overflow of a sum of finite capacities"
 	r.Assumptions = []string{"the planner is deterministic for equal arguments (see C33 for the NUMA order caveat)"}
 	r.min("N3", 2)
-	r.min("AG1", 2)
+	r.min("AG1", 4)
 	r.min("AG2", 3)
 	r.min("AG3", 1)
 	r.min("DOM", 1)
@@ -313,6 +313,46 @@ func checkC07(p *Prog, r *Result, tier string) {
 		})
 		r.check(capOK && refOK, "AG1", pk+" / capacity is the number of plans and allocation refuses exactly below it", p.pos(cA), "Capacity = len(plans); if len(plans) < count → insufficient",
 			fmt.Sprintf("capacity=len(plans): %v; refusal iff len(plans) < count: %v", capOK, refOK))
+		// no short cut: on the CPU-bound side every return of the capacity function comes after the planner call, and every
+		// return of the allocation function either refuses below len(plans) or hands out plans — a test that exists on one
+		// side only makes the capacity differ from what allocation accepts
+		for _, side := range []struct {
+			fn   *FuncNode
+			call *ast.CallExpr
+			what string
+		}{{GC, cG, "capacity"}, {AC, cA, "allocation"}} {
+			early := ""
+			n := 0
+			side.fn.inspectBody(func(x ast.Node) bool {
+				rt, ok := x.(*ast.ReturnStmt)
+				if !ok {
+					return true
+				}
+				// returns inside the `!CPUBind` (memory) branch are judged by AG2
+				inMem := false
+				side.fn.inspectBody(func(y ast.Node) bool {
+					if is, ok := y.(*ast.IfStmt); ok && strings.Contains(exprStr(is.Cond), "CPUBind") && is.Body.Pos() <= rt.Pos() && rt.End() <= is.Body.End() {
+						inMem = true
+					}
+					return true
+				})
+				if inMem {
+					return true
+				}
+				n++
+				if !side.fn.dominates(side.fn.find(side.call), side.fn.find(rt)) {
+					early = p.pos(rt)
+				}
+				return true
+			})
+			key := fmt.Sprintf("%s / the CPU-bound %s has no exit that bypasses the planner", pk, side.what)
+			if n == 0 {
+				r.undecided("AG1", key, p.pos(side.fn.Decl), "no return found")
+			} else {
+				r.check(early == "", "AG1", key, p.pos(side.call), fmt.Sprintf("all %d return(s) of the CPU-bound side are dominated by the GetCPUPlans call", n),
+					"the return at "+early+" leaves the CPU-bound "+side.what+" before the planner has been asked: it applies a test the other side does not apply, so the reported capacity and the largest accepted count differ (e.g. aggregate CPU usage also counts unbound workloads, which hold no pieces)")
+			}
+		}
 	}
 
 	// ---- AG2 memory quotient, zero guard, cpu precheck
